@@ -166,6 +166,77 @@ def is_blank(C, s):
     return None
 
 
+def row_fill(C, s):
+    """A helper that blanks one row with a contiguous fill: `idx[a] = v0; first = begin + lin(idx); idx[a] = v1; last = begin + lin(idx); std::fill(first, last + c, value)`.
+    With the wrap map lin = ... + ((idx[a] + off[a]) mod n[a]) the physical cells of a row are contiguous only as a SET; the covered range [lin(v0), lin(v1) + c) is evaluated for every axis length 1..4 and
+    every offset 0..n-1 against the set of cells of the row.  Returns None (not this idiom) | ('equiv', a, index node, value node) | ('violated', text)."""
+    from .C20 import deep_unwrap
+    from ..tree import sx
+    e = strip_casts(s.get('e')) if s.get('k') == 'Expr' else None
+    if not (e is not None and e.get('k') == 'MCall' and e.get('inrepo') and e.get('fk') and strip_casts(e['obj']).get('k') == 'This'):
+        return None
+    callee = C.fx.functions.get(e['fk']) if hasattr(C, 'fx') else None
+    if callee is None or callee.get('body') is None:
+        return None
+    body = [x for x in live(callee['body'])]
+    if len(body) != 5 or [x['k'] for x in body] != ['Expr', 'Decl', 'Expr', 'Decl', 'Expr']:
+        return None
+    t = [deep_unwrap(sx(x['e'])) if x['k'] == 'Expr' else (x['vars'][0]['name'], deep_unwrap(sx(x['vars'][0]['init'])) if x['vars'][0].get('init') is not None else None) for x in body]
+    pn = [p_['name'] for p_ in callee['params']]
+    if len(pn) != 2:
+        return None
+
+    def axis_store(u):
+        if isinstance(u, tuple) and len(u) == 3 and u[0] == '=' and isinstance(u[1], tuple) and u[1][0] == '[]' and u[1][1] == pn[0] and isinstance(u[1][2], int):
+            return u[1][2], u[2]
+        return None
+    s0, s1 = axis_store(t[0]), axis_store(t[2])
+    if not s0 or not s1 or s0[0] != s1[0]:
+        return None
+    a = s0[0]
+
+    def bound(v):
+        if isinstance(v, int):
+            return lambda n: v
+        if isinstance(v, tuple) and v[0] == '[]' and isinstance(v[1], str) and v[1].endswith('numberOfCellsAlongAxesMinusOne_') and v[2] == a:
+            return lambda n: n - 1
+        if isinstance(v, tuple) and v[0] == '-' and len(v) == 3 and v[2] == 1 and isinstance(v[1], tuple) and v[1][0] == '[]' and str(v[1][1]).endswith('numberOfCellsAlongAxes_') and v[1][2] == a:
+            return lambda n: n - 1
+        return None
+    b0, b1 = bound(s0[1]), bound(s1[1])
+
+    def is_lin(u):
+        return isinstance(u, tuple) and len(u) == 3 and u[0] == '+' and isinstance(u[1], tuple) and u[1][0] == '.begin' and str(u[1][1]).endswith('buffer_') and isinstance(u[2], tuple) \
+            and str(u[2][0]).endswith('computeCellLinearIndex_') and u[2][-1] == pn[0]
+    if b0 is None or b1 is None or not (is_lin(t[1][1]) and is_lin(t[3][1])):
+        return None
+    f_ = t[4]
+    if not (isinstance(f_, tuple) and f_[0] in ('std::fill', 'fill') and len(f_) == 4 and f_[1] == t[1][0] and f_[3] == pn[1]):
+        return None
+    if f_[2] == t[3][0]:
+        extra = 0
+    elif isinstance(f_[2], tuple) and f_[2][0] == '+' and f_[2][1] == t[3][0] and isinstance(f_[2][2], int):
+        extra = f_[2][2]
+    else:
+        return None
+    for n in (1, 2, 3, 4):
+        for o in range(n):
+            lo, hi = (b0(n) + o) % n, (b1(n) + o) % n
+            covered = set(range(lo, hi + extra))
+            if covered != set(range(n)):
+                return ('violated', 'the helper %s blanks a row with one contiguous fill from the cell of index %s to the cell of index %s along axis %d; through the wrap map (index + offset) mod n these are the '
+                        'physical columns %d and %d when the axis has %d cells and its accumulated index offset is %d, so the filled range [%d, %d) covers %s of the %d cells of the row: the cells that enter the '
+                        'window keep their old values whenever the offset of axis %d is not 0' % (callee['name'], s0[1] if isinstance(s0[1], int) else 'n-1', s1[1] if isinstance(s1[1], int) else 'n-1', a, lo, hi, n, o,
+                                                                                             lo, hi + extra, 'none' if not covered else sorted(covered), n, a))
+    # equivalent to the full-range loop: index node and value node with the call's arguments
+    idx_node = None
+    for x in walk(body[1]):
+        if x.get('k') in ('MCall', 'Call') and str(x.get('m') or x.get('fn') or '').endswith('computeCellLinearIndex_'):
+            idx_node = dict(x)
+            idx_node['args'] = [e['args'][0]]
+    return ('equiv', a, idx_node, e['args'][1]) if idx_node else None
+
+
 def raw_buffer_access(s):
     """Statement touches this.buffer_ other than through buffer_[computeCellLinearIndex_(..)] and nothing in it depends on the offset field."""
     mentions = any(x.get('k') == 'Member' and x.get('name') == 'buffer_' for x in walk(s))
@@ -707,6 +778,13 @@ def check_block(fx, R, C, cname, f, k, dim, blk):
             b = is_blank(C, s)
             if b:
                 ev['body'].append(('blank', b, list(loops), s['loc']))
+                return
+            rf = row_fill(C, s)
+            if rf and rf[0] == 'violated':
+                R.violated('O6', inst + ':contiguous-row-fill', rf[1], fx.rel(s['loc']), 'E-STEP')
+                return
+            if rf and rf[0] == 'equiv':
+                ev['body'].append(('blank', (rf[2], rf[3]), list(loops) + [('range', rf[1])], s['loc']))
                 return
             ap = assign_parts(s)
             if ap and C.lhs_symbol(ap[0]) == idxk:
